@@ -11,7 +11,7 @@
      - after it the state satisfies Inv U (R a), the supplement Ext of MovingLibEvents.v (cursor LIB = LIB of the
        fork database, LIB block stored) and LibRecv, so that the rest of the run is MovingLibEvents.run_ev. *)
 From BV Require Import Base.Prelude Model.Block Model.ForkDB Model.Forkable Spec.Consumer Spec.Universe
-  Spec.C04_Spec Spec.C04_Moving_Spec
+  Spec.C04_Spec Spec.C04_Moving_Spec Spec.C04_Disc_Spec
   Proofs.Fk.StoreFacts Proofs.Fk.WalkFacts Proofs.Fk.LoopFacts Proofs.Fk.StoreChange Proofs.Fk.SwitchFacts
   Proofs.Fk.FixedLib Proofs.Fk.FixedLibEvents Proofs.Fk.RootsBase Proofs.Fk.MovingLibStore Proofs.Fk.MovingLibWalk
   Proofs.Fk.MovingLibLoops Proofs.Fk.MovingLibInv Proofs.Fk.MovingLibFin Proofs.Fk.MovingLibDisc Proofs.Fk.MovingLibEvents.
@@ -48,8 +48,13 @@ Section DiscEv.
 
   (* pre_step of MovingLibDisc.v without its last step: nothing delivered / the block is its own LIB (or the first
      streamable block) / the LIB is a stored proper ancestor a of the block *)
+  (* PreQuiet of MovingLibDisc.v, and nothing but the incoming block is added to the buffer *)
+  Definition PreQuietX (s : fstate) (b : block) (res : fstate * list event * result) : Prop :=
+    PreQuiet s b res /\
+    forall id, In id (keys (store (db (fst (fst res))))) -> In id (keys (store (db s)) ++ [bid b]).
+
   Lemma disc_cases s b : PreInv s -> In b U ->
-    PreQuiet s b (fk_step cfg s b) \/
+    PreQuietX s b (fk_step cfg s b) \/
     (~ In (bid b) (keys (store (db s))) /\
      (fk_step cfg s b =
         (let '(s', evs, ok) := process_initial_inclusive cfg b (with_db s (move_lib (new_db (db s) b) (bref b))) in
@@ -63,7 +68,8 @@ Section DiscEv.
   Proof.
     intros HP Hb. pose proof HP as [Hl He Hnd HU Hun Hls Hlls Hrt].
     destruct (find (bid b) (store (db s))) as [e|] eqn:Hf.
-    { left. rewrite (pre_step_old U cfg Hhold Hincl U_id U_uniq U_up D_decl s b e HP Hb Hf). exists s.
+    { left. rewrite (pre_step_old U cfg Hhold Hincl U_id U_uniq U_up D_decl s b e HP Hb Hf).
+      split; [|cbn [fst]; intros id Hid; apply in_or_app; left; exact Hid]. exists s.
       split; [reflexivity|]. split; [exact HP|].
       split; [auto|]. split; [auto|]. apply find_is_some_in. eauto. }
     assert (Hk : ~ In (bid b) (keys (store (db s)))) by (apply find_none; exact Hf).
@@ -83,8 +89,10 @@ Section DiscEv.
     { apply chain_nil_inv in Hc. rewrite <- Hc, Hfb in Hy. discriminate. }
     destruct (chain_top _ _ _ _ _ Hc) as [Hft _]. rewrite Hfb in Hft. injection Hft as <-.
     assert (Hquiet : has_lib d1 = false -> (bparent b = 0 -> bnum b <> first /\ bnum b <> blib b) ->
-                     PreQuiet s b (with_db s d1, [], ROk)).
-    { intros _ Hq. exists (with_db s d1). split; [reflexivity|].
+                     PreQuietX s b (with_db s d1, [], ROk)).
+    { intros _ Hq.
+      split; [|cbn [fst with_db db d1 new_db store]; intros id Hid; rewrite keys_snoc in Hid; exact Hid].
+      exists (with_db s d1). split; [reflexivity|].
       split; [exact (pre_add U cfg s b HP Hb Hf Hq)|]. split; [intros H; contradiction|].
       cbn [with_db db d1 new_db store]. rewrite keys_snoc. split.
       - intros k Hin. apply in_or_app. left. exact Hin.
@@ -434,7 +442,7 @@ Section DiscEv.
   (* ---------------------------------------------------------------- one ProcessBlock call before the discovery *)
 
   Lemma disc_step_ev s b : PreInv s -> In b U ->
-    PreQuiet s b (fk_step cfg s b) \/
+    PreQuietX s b (fk_step cfg s b) \/
     (~ In (bid b) (keys (store (db s))) /\ DiscEv s b (fk_step cfg s b)).
   Proof.
     intros HP Hb. destruct (disc_cases s b HP Hb) as [Hq|(Hk & [Hown|(y & A & a & B' & Hc & Hna & Hfound)])].
@@ -442,4 +450,98 @@ Section DiscEv.
     - right. split; [exact Hk|]. rewrite Hown. apply own_ev; [exact HP | exact Hb | apply find_none; exact Hk].
     - right. split; [exact Hk|]. rewrite Hfound. apply (found_ev s b y A a B'); try assumption. apply find_none. exact Hk.
   Qed.
+
+  (* ---------------------------------------------------------------- the discovering step is a c04m_step *)
+
+  Lemma disc_events_first b a pre : exists e rest, disc_events b a (pre ++ [b]) = e :: rest /\ elib e = R a.
+  Proof.
+    unfold disc_events, fresh_events. destruct pre as [|x pre]; cbn [app map]; eexists; eexists; split; reflexivity.
+  Qed.
+
+  Lemma disc_events_apply b a pre :
+    apply_all (ri (R a)) [] (fresh_events (bref b) (R a) (pre ++ [b])) = Some (rev (pre ++ [b])) ->
+    apply_all (ri (R a)) [] (disc_events b a (pre ++ [b])) = Some (rev (pre ++ [b])).
+  Proof.
+    intros H. unfold disc_events. rewrite (apply_all_app _ _ _ _ _ H). apply apply_all_inert.
+    destruct (f_irr (c_filter cfg)); [|constructor]. constructor; [left; reflexivity | constructor].
+  Qed.
+
+  Lemma disc_c04m_step lr b a pre :
+    Forall (fun x => In x U /\ bnum a <= bnum x) (pre ++ [b]) ->
+    apply_all (ri (R a)) [] (fresh_events (bref b) (R a) (pre ++ [b])) = Some (rev (pre ++ [b])) ->
+    c04m_step (R a) (f_irr (c_filter cfg)) lr (R a) [] b (disc_events b a (pre ++ [b])) (R a) (rev (pre ++ [b])).
+  Proof.
+    intros Hab Happ.
+    exists [], [], [], (pre ++ [b]), (if f_irr (c_filter cfg) then [a] else []), [].
+    split; [reflexivity|]. split; [cbn [app]; rewrite app_nil_r; reflexivity|].
+    split.
+    { unfold disc_events. cbn [batch_events stalled_events length app]. rewrite app_nil_r.
+      destruct (f_irr (c_filter cfg)); reflexivity. }
+    split; [cbn [app]; eapply Forall_impl; [|exact Hab]; cbn beta; intros x [_ H]; exact H|].
+    split; [destruct (f_irr (c_filter cfg)); cbn [ascending R rn]; [split; [apply N.le_refl | exact I] | exact I]|].
+    split; [apply N.le_refl|].
+    split; [intros ->; reflexivity|].
+    split; [intros ->; reflexivity|].
+    apply disc_events_apply. exact Happ.
+  Qed.
+
+  (* the state after the discovering step satisfies the supplement of MovingLibEvents.v *)
+  Lemma disc_ext s' a Fin : In a U -> libref (db s') = R a -> last_lib_seen s' = R a ->
+    In (bid a) (keys (store (db s'))) -> Ext s' Fin.
+  Proof.
+    intros Ha Hl Hlls Hk. constructor.
+    - rewrite (cursor_not_empty s'); [rewrite Hlls, Hl; reflexivity|]. rewrite Hlls. apply (R_id U U_id a Ha).
+    - intros _. rewrite Hl. exact Hk.
+  Qed.
+
+  (* ---------------------------------------------------------------- whole histories *)
+
+  (* the buffer holds only blocks that were fed *)
+  Definition PRecv (s : fstate) (seen : list block) : Prop :=
+    forall id, In id (keys (store (db s))) -> exists x, In x seen /\ bid x = id.
+
+  Lemma precv_step s s' b seen : PRecv s seen ->
+    (forall id, In id (keys (store (db s'))) -> In id (keys (store (db s)) ++ [bid b])) -> PRecv s' (b :: seen).
+  Proof.
+    intros HR Hsub id Hid. apply Hsub in Hid. apply in_app_or in Hid as [Hid|[<-|[]]].
+    - destruct (HR id Hid) as (x & Hx & E). exists x. split; [right; exact Hx | exact E].
+    - exists b. split; [left; reflexivity | reflexivity].
+  Qed.
+
+  Lemma disc_run_ev : forall h s seen, PreInv s -> (forall b, In b h -> In b U) -> PRecv s seen ->
+    c04d_run (f_irr (c_filter cfg)) seen h (fk_run cfg s h).
+  Proof.
+    induction h as [|b h IH]; intros s seen HP Hh HR; [exact I|].
+    assert (Hb : In b U) by (apply Hh; left; reflexivity).
+    assert (Hh' : forall x, In x h -> In x U) by (intros x Hx; apply Hh; right; exact Hx).
+    cbn [fk_run].
+    destruct (disc_step_ev s b HP Hb) as [[(s' & Hstep & HP' & _) Hsub]|(Hnk & Hdisc)].
+    - (* nothing delivered *)
+      rewrite Hstep in Hsub |- *. cbn [fst] in Hsub. cbn [c04d_run]. left.
+      split; [reflexivity|]. split; [reflexivity|].
+      apply (IH s' (b :: seen) HP' Hh'). exact (precv_step s s' b seen HR Hsub).
+    - (* the LIB is discovered *)
+      destruct Hdisc as (s' & a & Fin & pre & Hstep & HaU & Hab & Happ & HI' & Hcase & Hl' & Hlls' & Hls' & Hka & _ & Hsub & _).
+      rewrite Hstep. cbn [c04d_run]. right.
+      destruct (disc_events_first b a pre) as (e & rest & He & Hel).
+      exists (R a), e, rest. split; [exact He|]. split; [exact Hel|].
+      cbn [c04m_run]. split; [reflexivity|]. exists (R a), (rev (pre ++ [b])).
+      split; [apply disc_c04m_step; assumption|].
+      pose proof (run_ev U (R a) cfg Hnofail Hnew Hundo U_id U_uniq U_up
+                    (R_id U U_id a HaU) (R_num U U_uniq a HaU) (R_up U U_up a HaU) (R_decl U U_uniq D_decl a HaU)
+                    h s' Fin (rev (pre ++ [b])) (b :: seen) HI' (disc_ext s' a Fin HaU Hl' Hlls' Hka)) as Hrun.
+      rewrite Hl' in Hrun. apply Hrun; [|exact Hh'].
+      (* the LIB block is stored and was fed *)
+      intros HF. destruct Hcase as [(_ & _ & ->)|(Hks & _ & _)]; [discriminate|].
+      apply bool_eq_iff. rewrite lib_stored_in, lib_received_in. cbn [R ri]. split; intros _.
+      + destruct (HR _ Hks) as (x & Hx & E). exists x. split; [right; exact Hx | exact E].
+      + exact Hka.
+  Qed.
+
+  Lemma precv_init : PRecv (fs_init LNone) [].
+  Proof. intros id []. Qed.
+
+  Theorem discovery_events h : (forall b, In b h -> In b U) ->
+    c04d_run (f_irr (c_filter cfg)) [] h (fk_run cfg (fs_init LNone) h).
+  Proof. intros Hh. apply disc_run_ev; [apply pre_init | exact Hh | apply precv_init]. Qed.
 End DiscEv.
